@@ -262,6 +262,8 @@ TEXT_PROBES = [
     ("KF-C02-esac-rparen", "( case x in x) echo a ;; esac )\necho \"?=$?\"\n"),
     ("KF-C02-esac-rparen", "( case x in x) echo a ;; esac | cat )\necho \"?=$?\"\n"),
     ("KF-C02-esac-rparen", "( ! case x in (x) echo a ;; esac )\necho \"?=$?\"\n"),
+    ("KF-C02-esac-rparen", "echo \"[$( case x in x) echo a ;; esac )]\"\necho \"?=$?\"\n"),
+    ("KF-C02-return-negative-needs-dashes", "f() { return -2; }; f; echo \"?=$?\"\n"),
     ("KF-C02-nested-subshell", "( ( exit 3 ) )\necho \"?=$?\"\n"),
 ]
 
